@@ -516,7 +516,7 @@ func runCheck(prop, tier string) int {
 			j.SplitAt = 16
 		}
 	}
-	workDir := filepath.Join(verifRoot(), "work", prop)
+	workDir := filepath.Join(outRoot(), "work", prop)
 	os.RemoveAll(workDir)
 	os.MkdirAll(workDir, 0o755)
 	nw := 16
@@ -840,8 +840,8 @@ func writeEvidence(prop, tier string, spec *checkSpec, jobs []*Job, results []*J
 		"coverage": cov, "assumptions": as, "wall_s": round2(wall), "violations": nViol,
 	}
 	b, _ := json.MarshalIndent(ev, "", " ")
-	os.MkdirAll(filepath.Join(verifRoot(), "evidence"), 0o755)
-	os.WriteFile(filepath.Join(verifRoot(), "evidence", prop+".json"), b, 0o644)
+	os.MkdirAll(filepath.Join(outRoot(), "evidence"), 0o755)
+	os.WriteFile(filepath.Join(outRoot(), "evidence", prop+".json"), b, 0o644)
 }
 
 func seedEnv() int {
@@ -883,7 +883,7 @@ func replayMain(path string) int {
 			prop = f[1]
 		}
 	}
-	workDir := filepath.Join(verifRoot(), "work", "replay")
+	workDir := filepath.Join(outRoot(), "work", "replay")
 	bin, err := buildReplayBinary(module, workDir)
 	if err != nil {
 		fmt.Fprintln(os.Stderr, err)
